@@ -1,17 +1,17 @@
-use engine::c01::*;
-use engine::common::*;
-use engine::tokh::*;
-use std::collections::{BTreeMap, BTreeSet};
-use std::sync::atomic::AtomicU64;
-use std::sync::Mutex;
+use engine::c10::*;
+use tendril::stream::{LossyDecoder, TendrilSink};
+use tendril::ByteTendril;
 fn main() {
-    quiet_panics();
-    let mut ctx = Ctx::new("C01", Tier::Thorough);
-    ctx.replay_mode = true;
-    let mode = Mode { tokens: true, lines: false };
-    let stats = Stats { execs: AtomicU64::new(0), outcomes: Mutex::new(BTreeSet::new()) };
-    let controls = Mutex::new(BTreeMap::new());
-    let secs: f64 = std::env::args().nth(1).unwrap().parse().unwrap();
-    let out = closure(&ctx, &mode, &TokCfg::default(), secs, &stats, &controls, None);
-    println!("states={} transitions={} depth={} closed={} capped={:?} levels={:?} t={:.1}", out.states, out.transitions, out.max_depth, out.closed, out.capped_by, out.level_sizes, ctx.elapsed());
+    for chunks in [vec![&[0xD8u8,0x41,0,0][..]], vec![&[0xD8u8][..], &[0x41,0,0][..]], vec![&[0xD8u8,0x41][..], &[0,0][..]], vec![&[0xD8u8,0x41,0][..], &[0][..]]] {
+        let mut d = LossyDecoder::new_encoding_rs(encoding_rs::UTF_16BE, Rec::default());
+        for c in &chunks { d.process(ByteTendril::from_slice(c)); }
+        let r = d.finish();
+        println!("{:?} -> {:02X?} errors={}", chunks, r.out, r.errors);
+    }
+    let mut dec = encoding_rs::UTF_16BE.new_decoder();
+    let mut out = [0u8; 64];
+    let r = dec.decode_to_utf8_without_replacement(&[0xD8,0x41], &mut out, false); println!("{:?}", r);
+    let r = dec.decode_to_utf8_without_replacement(&[0,0], &mut out, false); println!("{:?}", r);
+    let n = dec.max_utf8_buffer_length_without_replacement(0); println!("maxlen {:?}", n);
+    let r = dec.decode_to_utf8_without_replacement(&[], &mut out[..n.unwrap()], true); println!("{:?} {:02X?}", r, &out[..4]);
 }
